@@ -1,10 +1,10 @@
-\* the clauses of the statement over the histories, two iterators and two tokens (thorough)
+\* the clauses of the statement over the histories, two iterators (thorough)
 SPECIFICATION Spec
 CONSTANTS
   K = 3
-  T = 2
+  T = 1
   I = 2
-  MaxToks = 2
+  MaxToks = 1
 INVARIANT TypeOK Complete
 PROPERTIES InOrderNoRepeat NeverDeleted AdvanceBound FalseMeansEnd
 CHECK_DEADLOCK FALSE
